@@ -54,7 +54,7 @@ PLAN = dict(
                 "the small streams. The thorough run repeats a reduced workload under Miri (8 shards)."),
     level_note="trusts the generator's reference entries; partitions of streams larger than 8 KiB and more than two simultaneous adversarial cuts outside the random/fixed families are sampled, not enumerated",
     not_explored=["invalid UTF-8 as the malformation (DESIGN section 4: C09 speaks of C08's malformations)",
-                  "streams that are not canonical (non-canonical variable order, repeated single-valued variables): Display could not reproduce them",
+                  "streams with repeated single-valued variables (Display could not reproduce them); a non-canonical variable order is used in one generated stream in four (writes, entries and the canonical rendering by Display are compared)",
                   "streams without the final blank line, or with several blank lines between entries",
                   "behaviour of write() calls made after the failing one",
                   "streams larger than ~1.1 MiB, single entries larger than ~170 KiB, more than ~4500 entries per stream",
